@@ -286,7 +286,7 @@ theorem C15_prune_best_chain (n0 : Node) (pre : List Op) (op : Op) (d k : Nat) (
 
 /-- the same with the conclusion on the unerased replay: `C14.replay l0.st st = some s` where `s`
 agrees with the live monitor state on everything but the forget flag, in particular on the depths -/
-theorem C15_prune_best_chain' (n0 : Node) (pre : List Op) (op : Op) (d k : Nat) (l0 : Listener)
+theorem C15_prune_best_chain_unerased (n0 : Node) (pre : List Op) (op : Op) (d k : Nat) (l0 : Listener)
     (i : Inv n0)
     (hl0 : lookup k n0.listeners = some l0) (hsb : l0.st.sawBlock = true)
     (hkey : NoRekey k pre) (hnp : NoPanic n0 pre) (hws : WellStacked [] pre)
